@@ -378,6 +378,7 @@ func newSession(ld *loaded, rc RunCfg, harness, prop string, known []interp.Know
 		Known: known, Stubs: ld.stubs, InlineGo: rc.InlineGo,
 		IntrinsicPkgs: map[string]bool{ld.pkg.Pkg.Path(): true},
 		WantSample:    rc.Samples,
+		ExtraInits:    []*ssa.Function{ld.model.Func("init")},
 	}
 	if hasArg {
 		s.Arg = &arg
@@ -570,6 +571,7 @@ func cmdCheck(args []string) int {
 	var knownLines []string
 	seenKnown := map[string]bool{}
 	nontrivial := 0
+	coverDecl, coverHit := map[string]bool{}, map[string]bool{}
 
 	for _, rc := range cfg.Runs {
 		hs := rc.Quick
@@ -606,8 +608,9 @@ func cmdCheck(args []string) int {
 				WallS: time.Since(th).Seconds(), Outcomes: s.Outcomes, Asserts: s.AssertsByLbl, Covers: map[string]bool{}, Unknown: s.Unknowns}
 			for c := range s.CoverDecl {
 				rep.Covers[c] = s.Covers[c]
-				if !s.Covers[c] {
-					inconclusive = append(inconclusive, fmt.Sprintf("%s: cover witness %q unreachable (vacuity guard)", h, c))
+				coverDecl[c] = true
+				if s.Covers[c] {
+					coverHit[c] = true
 				}
 			}
 			reports = append(reports, rep)
@@ -698,8 +701,22 @@ func cmdCheck(args []string) int {
 				continue
 			}
 			ok := r.Panic == "" && !r.Hang && r.AssumeBad == ""
+			// the assertions failing natively must be exactly those predicted for these inputs
+			predicted := map[string]bool{}
+			for _, f := range sm.Failing {
+				predicted[f] = true
+			}
+			nativeFail := map[string]bool{}
 			for _, f := range r.Failed {
-				if strings.HasPrefix(f, id+"/") || !strings.Contains(f, "/") {
+				if labelOf(f, id) {
+					nativeFail[f] = true
+					if !predicted[f] {
+						ok = false
+					}
+				}
+			}
+			for f := range predicted {
+				if !nativeFail[f] {
 					ok = false
 				}
 			}
@@ -715,6 +732,12 @@ func cmdCheck(args []string) int {
 				rb, _ := json.Marshal(r)
 				inconclusive = append(inconclusive, fmt.Sprintf("ENCODING-MISMATCH: sampled path of %s behaves differently natively: predicted %v, native %s, inputs %v", sm.Harness, sm.Observed, rb, sm.Model))
 			}
+		}
+	}
+	// vacuity guard: every declared reachability witness must be reached by some harness of the check
+	for c := range coverDecl {
+		if !coverHit[c] {
+			inconclusive = append(inconclusive, fmt.Sprintf("cover witness %q unreachable in every harness (vacuity guard)", c))
 		}
 	}
 	for _, l := range knownLines {
@@ -760,6 +783,7 @@ func cmdCheck(args []string) int {
 		"solver_time_s":                 solverS,
 		"solver":                        "z3 4.8.12 (incremental, one session per worker), int-wrap encoding; see DESIGN.md §2",
 		"known_findings_witnessed":      knownLines,
+		"cover_witnesses_reached":       coverHit,
 		"inconclusive":                  inconclusive,
 		"traces_mismatching_impl":       validatedBad,
 	}
@@ -772,6 +796,20 @@ func cmdCheck(args []string) int {
 	os.WriteFile(filepath.Join(verifDir, "evidence", id+".json"), eb, 0o644)
 	fmt.Printf("%s tier=%s paths=%d queries=%d unsat-assertions=%d validated-traces=%d wall=%.1fs exit=%d\n", id, tier, totalPaths, totalQ, totalDis, validated, time.Since(t0).Seconds(), exit)
 	return exit
+}
+
+// labelOf: does assertion label f belong to property id (or to all)?
+func labelOf(f, id string) bool {
+	i := strings.Index(f, "/")
+	if i < 0 {
+		return true
+	}
+	for _, p := range strings.Split(f[:i], ",") {
+		if p == id {
+			return true
+		}
+	}
+	return false
 }
 
 func modelStr(m map[string]string) string {
